@@ -393,38 +393,96 @@ Definition with_cur (p : option (call * nat)) (s : state) : state :=
 Definition wrote (c : call) (s : state) : state :=
   mk (next_id s) (sendq s) (cur s) (wire s ++ [c]) (inq s) (waiting s) (evq s) (trace s) (lost s) (dropped s) (early s) (cut s).
 
-(* produce() is running with call c on top of the stack; application code called from c's slicers issues `inner`; then c either
-   pauses on the next of the `left` Deferreds it still has to wait for, or is written out and the producer goes on with the queue *)
-Definition go_on (c : call) (left : nat) (inner : list (nat * fate)) (s : state) : state :=
-  let s' := fold_left enqueue1 inner s in
-  match left with
-  | 0 => pump (S (List.length (sendq s'))) (wrote c (with_cur None s'))
-  | S _ => with_cur (Some (c, left)) s'
+(* ---- HOOKS: what the application code that a call's slicers run does, as a table.  An entry ((k, left), inner) says: when the
+   serialization of call k reaches the control point at which it still has `left` Deferreds to wait for -- left = stalls k: it has
+   just been taken off the queue (Copyable.getStateToCopy, the body of a streaming slicer before its first token / before its
+   first pause); stalls k > left > 0: right after a pause has ended; left = 0: as it finishes -- the code issues `inner`, in that
+   order.  Each control point of a call is passed once; the entry is used up there.  The hooks of a call that was only QUEUED
+   (busy sender) therefore run later, out of whatever wakes the producer up: pump_h. *)
+Definition hook := ((nat * nat) * list (nat * fate))%type.
+Definition h_is (k left : nat) (h : hook) : bool := (fst (fst h) =? k) && (snd (fst h) =? left).
+Definition h_find (k left : nat) (H : list hook) : list (nat * fate) :=
+  match find (h_is k left) H with Some h => snd h | None => [] end.
+Definition h_drop (k left : nat) (H : list hook) : list hook := filter (fun h => negb (h_is k left h)) H.
+Definition h_size (H : list hook) : nat := fold_right (fun h n => List.length (snd h) + n) 0 H.
+
+(* Banana.produce with hooks: like pump, but the slicers of the call that is taken off the queue run application code first
+   (RootSlicer.send sees a stack deeper than the root: only enqueues).  Returns the state, the hooks not yet used, and the calls
+   that were issued from inside, in the order issued.  Every round takes one call off the queue and uses up the hooks that put
+   calls on it, so S (queue + calls in the table) rounds always suffice (nfuel). *)
+Fixpoint pump_h (fuel : nat) (H : list hook) (s : state) {struct fuel} : state * list hook * list (nat * fate) :=
+  match fuel with
+  | 0 => (s, H, [])
+  | S f =>
+    match cur s with
+    | Some _ => (s, H, [])
+    | None =>
+      match q_take sendq_pop (sendq s) with
+      | None => (s, H, [])
+      | Some (c, rest) =>
+        let inner := h_find (cid c) (stalls c) H in
+        let H' := h_drop (cid c) (stalls c) H in
+        let s' := fold_left enqueue1 inner
+                    (mk (next_id s) rest None (wire s) (inq s) (waiting s) (evq s) (trace s) (lost s) (dropped s) (early s) (cut s)) in
+        match stalls c with
+        | 0 => match pump_h f H' (wrote c s') with (s2, H2, iss) => (s2, H2, inner ++ iss) end
+        | S _ => (with_cur (Some (c, stalls c)) s', H', inner)
+        end
+      end
+    end
   end.
 
-(* callRemote whose argument's serialization issues `inner`: if the sender is idle the producer is woken inside this very
-   send(), takes the call off the queue (RootSlicer.__next__) and runs its slicers, hooks included, before send() returns; if
-   the sender is busy the call is only queued (its hooks run whenever it is serialized: release_nested / a later go_on) *)
-Definition issue_nested (st : nat) (f : fate) (inner : list (nat * fate)) (s : state) : state :=
+Definition nfuel (H : list hook) (s : state) : nat := S (List.length (sendq s) + h_size H).
+
+(* callRemote from ordinary code.  Idle sender: the producer is woken inside this very send() and runs the slicers, hooks
+   included, before send() returns.  Busy sender: the call is only queued -- at the END of the queue, like any other --; its hooks
+   run when the producer gets to it. *)
+Definition issue_h (st : nat) (f : fate) (H : list hook) (s : state) : state * list hook * list (nat * fate) :=
   let c := {| cid := next_id s; stalls := st; cfate := f |} in
   let q := q_put sendq_push c (sendq s) in
   let idle := is_none (cur s) && is_nil (if send_idle_before_enqueue then sendq s else q) in
   let s1 := mk (S (next_id s)) q (cur s) (wire s) (inq s) (waiting s) (evq s) (trace s) (lost s) (dropped s) (early s) (cut s) in
-  if idle then
-    match q_take sendq_pop q with
-    | Some (c0, rest) =>
-      go_on c0 (stalls c0) inner (mk (S (next_id s)) rest None (wire s) (inq s) (waiting s) (evq s) (trace s) (lost s) (dropped s) (early s) (cut s))
-    | None => s1
-    end
-  else s1.
+  if idle then pump_h (nfuel H s1) H s1 else (s1, H, []).
 
-(* the Deferred on which produce() is paused fires, and the code that runs next inside the slicer issues `inner` before the call
-   pauses again or ends *)
-Definition release_nested (inner : list (nat * fate)) (s : state) : state :=
+(* the Deferred on which produce() is paused fires; the code that runs next inside the slicer is the call's next control point;
+   then the call pauses again, or it is written out and the producer goes on with the queue (hooks of the calls it finds there) *)
+Definition release_h (H : list hook) (s : state) : state * list hook * list (nat * fate) :=
   match cur s with
-  | None => s
-  | Some (c, S (S m)) => go_on c (S m) inner s
-  | Some (c, _) => go_on c 0 inner s
+  | None => (s, H, [])
+  | Some (c, S (S m)) =>
+    let inner := h_find (cid c) (S m) H in
+    (fold_left enqueue1 inner (with_cur (Some (c, S m)) s), h_drop (cid c) (S m) H, inner)
+  | Some (c, _) =>
+    let inner := h_find (cid c) 0 H in
+    let H' := h_drop (cid c) 0 H in
+    let s' := wrote c (with_cur None (fold_left enqueue1 inner s)) in
+    match pump_h (nfuel H' s') H' s' with (s2, H2, iss) => (s2, H2, inner ++ iss) end
   end.
 
 Definition issue_ops (inner : list (nat * fate)) : list op := map (fun i => Issue (fst i) (snd i)) inner.
+
+(* a history in which only the calls made by ORDINARY code are ops; those made from inside a serialization come out of the hook
+   table when their moment comes.  n_flat is the same history written flat: every op, followed by the Issue ops of the calls that
+   were issued from inside while it ran *)
+Record nstate := nmk { n_state : state; n_hooks : list hook; n_flat : list op }.
+
+Definition nstep (n : nstate) (o : op) : nstate :=
+  match o with
+  | Issue st f =>
+    match issue_h st f (n_hooks n) (n_state n) with (s, H, iss) => nmk s H (n_flat n ++ o :: issue_ops iss) end
+  | StallRelease =>
+    match release_h (n_hooks n) (n_state n) with (s, H, iss) => nmk s H (n_flat n ++ o :: issue_ops iss) end
+  | _ => nmk (step (n_state n) o) (n_hooks n) (n_flat n ++ [o])
+  end.
+
+Definition ninit (H : list hook) : nstate := nmk init H [].
+Definition nrun (H : list hook) (ops : list op) : nstate := fold_left nstep ops (ninit H).
+
+(* for the correspondence: the observation after every script step, and the number of calls still in the table at the end *)
+Fixpoint observe_steps_h (n : nstate) (steps : list (list op)) :=
+  match steps with
+  | [] => []
+  | ops :: r => let n' := fold_left nstep ops n in observe (n_state n') :: observe_steps_h n' r
+  end.
+
+Definition hooks_left_after (H : list hook) (steps : list (list op)) : nat := h_size (n_hooks (nrun H (concat steps))).
